@@ -9,6 +9,7 @@
   the regenerated list, so a removed, weakened, inverted or added guard in the Go source breaks a named theorem before any
   sample runs.  (Core Lean only.)
 -/
+import PolyVerif.Model.Mesh
 import PolyVerif.Gen.MeshGuards
 
 namespace PolyVerif
@@ -47,6 +48,26 @@ theorem mesh_guards_from_source :
        "mesh.go Mesh.requireV1Attribute: !m.HasFloat1Attribute(attr)",
        "topology.go Topology.String: (fallthrough)",
        "topology.go Topology.IndexSize: (fallthrough)"] := by decide
+
+/-- the Go constant a model topology stands for -/
+def topoConst : Mesh.Topology → String
+  | .triangle => "TriangleTopology" | .point => "PointTopology" | .quad => "QuadTopology"
+  | .line => "LineTopology" | .lineStrip => "LineStripTopology" | .lineLoop => "LineLoopTopology"
+
+def allTopologies : List Mesh.Topology := [.triangle, .point, .quad, .line, .lineStrip, .lineLoop]
+
+theorem allTopologies_complete (t : Mesh.Topology) : t ∈ allTopologies := by cases t <;> simp [allTopologies]
+
+/-- the model's topologies are the `Topology` constants of the source in iota order: `toNat` is the Go value -/
+theorem topologies_from_source :
+    MeshGuards.topologies = allTopologies.map topoConst ∧
+    ∀ t ∈ allTopologies, MeshGuards.topologies[t.toNat]? = some (topoConst t) := by decide
+
+/-- `Topology.indexSize` — on which the "index count fits the topology" clause of `WF` rests — is the `return N` of the arm
+    of `IndexSize()` that lists the constant; every constant is in exactly one arm -/
+theorem indexSize_from_source :
+    ∀ t ∈ allTopologies,
+      (MeshGuards.indexSizeArms.filter (fun a => a.1.contains (topoConst t))).map (·.2) = [t.indexSize] := by decide
 
 /-- the mesh core has no other way to refuse an operation: 22 guards in all -/
 theorem mesh_guards_count : MeshGuards.guards.length = 22 := by decide
